@@ -161,6 +161,65 @@ func TestVerifC26(t *testing.T) {
 				snaps0[k] = v
 			}
 			oldTree := w.decodedSnapshots()[target]
+			// the oracle after a stop of the swept operation
+			judge := func(where string, finished bool) {
+			// oracle: old or new exists
+			dec := w.decodedSnapshots()
+			var successors []string
+			for id, sn := range dec {
+				if id != target && (sn.Original == first || sn.Original == target) {
+					if _, known0 := snaps0[id]; !known0 {
+						successors = append(successors, id)
+					}
+				}
+			}
+			sort.Strings(successors)
+			_, oldThere := dec[target]
+			if !oldThere && len(successors) == 0 {
+				r.Fail("old-or-new", "snapshot-lost", "%s: neither the old snapshot %s nor a rewritten one exists", where, target[:8])
+			}
+			for _, id := range successors {
+				sn := dec[id]
+				// tag retains the very first ID over all changes; rewrite names the snapshot it
+				// rewrote (restic resets `original` there on purpose) - both are "the first of the two"
+				if kind == "tag" && sn.Original != first {
+					r.Fail("original", "wrong-original", "%s: retagged snapshot %s has original %q, want the first snapshot's ID %s", where, id[:8], sn.Original, first[:8])
+				}
+				if (kind == "tag" || kind == "rewrite-host" || kind == "rewrite-host-multi") && len(extra) == 0 && oldTree != nil && sn.Tree != oldTree.Tree {
+					r.Fail("tree", "tree-changed", "%s: %s changed the tree from %s to %s", where, kind, oldTree.Tree[:8], sn.Tree[:8])
+				}
+			}
+			if finished && kind != "rewrite-keep" && oldThere && len(successors) > 0 && len(extra) == 0 {
+				r.Fail("old-removed", "old-not-removed", "%s: the old snapshot still exists after the operation completed", where)
+			}
+			for _, x := range extra {
+				if _, there := dec[x]; there {
+					continue
+				}
+				found := false
+				xo := x
+				if m := snaps0[x]; m != nil && m.Orig != "" {
+					xo = m.Orig
+				}
+				for id, sn := range dec {
+					if _, known0 := snaps0[id]; !known0 && (sn.Original == x || sn.Original == xo) {
+						found = true
+					}
+				}
+				if !found {
+					r.Fail("old-or-new", "snapshot-lost", "%s: of snapshot %s (handled in the same invocation) neither the old nor a rewritten one exists", where, x[:8])
+				}
+			}
+			// everything present must be complete and restore as the model says
+			w.recoverLocks(where)
+			gone := map[string]bool{target: true}
+			for _, x := range extra {
+				gone[x] = true
+			}
+			w.dropGone(gone, "other-snapshots", where)
+			w.snapshotsComplete("complete-snapshots", where)
+			w.verifyAll("content", where)
+			}
 			points := 0
 			completed := false
 			for k := 1; k < 200 && !r.Failed(); k++ {
@@ -182,66 +241,41 @@ func TestVerifC26(t *testing.T) {
 						r.Fail("op-result", "failed-without-fault", "%s: failed without a fault: %v", where, err)
 					}
 				}
-				// oracle: old or new exists
-				dec := w.decodedSnapshots()
-				var successors []string
-				for id, sn := range dec {
-					if id != target && (sn.Original == first || sn.Original == target) {
-						if _, known0 := snaps0[id]; !known0 {
-							successors = append(successors, id)
-						}
-					}
-				}
-				sort.Strings(successors)
-				_, oldThere := dec[target]
-				if !oldThere && len(successors) == 0 {
-					r.Fail("old-or-new", "snapshot-lost", "%s: neither the old snapshot %s nor a rewritten one exists", where, target[:8])
-				}
-				for _, id := range successors {
-					sn := dec[id]
-					// tag retains the very first ID over all changes; rewrite names the snapshot it
-					// rewrote (restic resets `original` there on purpose) - both are "the first of the two"
-					if kind == "tag" && sn.Original != first {
-						r.Fail("original", "wrong-original", "%s: retagged snapshot %s has original %q, want the first snapshot's ID %s", where, id[:8], sn.Original, first[:8])
-					}
-					if (kind == "tag" || kind == "rewrite-host" || kind == "rewrite-host-multi") && len(extra) == 0 && oldTree != nil && sn.Tree != oldTree.Tree {
-						r.Fail("tree", "tree-changed", "%s: %s changed the tree from %s to %s", where, kind, oldTree.Tree[:8], sn.Tree[:8])
-					}
-				}
-				if completed && kind != "rewrite-keep" && oldThere && len(successors) > 0 && len(extra) == 0 {
-					r.Fail("old-removed", "old-not-removed", "%s: the old snapshot still exists after the operation completed", where)
-				}
-				for _, x := range extra {
-					if _, there := dec[x]; there {
-						continue
-					}
-					found := false
-					xo := x
-					if m := snaps0[x]; m != nil && m.Orig != "" {
-						xo = m.Orig
-					}
-					for id, sn := range dec {
-						if _, known0 := snaps0[id]; !known0 && (sn.Original == x || sn.Original == xo) {
-							found = true
-						}
-					}
-					if !found {
-						r.Fail("old-or-new", "snapshot-lost", "%s: of snapshot %s (handled in the same invocation) neither the old nor a rewritten one exists", where, x[:8])
-					}
-				}
-				// everything present must be complete and restore as the model says
-				w.recoverLocks(where)
-				gone := map[string]bool{target: true}
-				for _, x := range extra {
-					gone[x] = true
-				}
-				w.dropGone(gone, "other-snapshots", where)
-				w.snapshotsComplete("complete-snapshots", where)
-				w.verifyAll("content", where)
+				judge(where, completed)
 				if completed {
 					break
 				}
 			}
+			// error sweep: the k-th Save/Remove attempt of the operation fails once, without effect or
+			// after it took effect (lost response); the retry layer and the command deal with it
+			errPoints := 0
+			for k := 1; k < 60 && !r.Failed(); k++ {
+				fired := false
+				for _, fk := range []string{"errafter", "errbefore"} {
+					w.store.Restore(s0)
+					w.snaps = map[string]*snapModel{}
+					for id, v := range snaps0 {
+						w.snaps[id] = v
+					}
+					w.forcedFired = 0
+					f := fault{Kind: fk, At: k}
+					_, err, _ := doOp(kind, target, f, 1000+k)
+					w.postRun()
+					if w.forcedFired == 0 {
+						continue
+					}
+					fired = true
+					errPoints++
+					judge(fmt.Sprintf("history %v, %s with %s (result: %v)", hist, kind, f.String(), err), false)
+					if r.Failed() {
+						break
+					}
+				}
+				if !fired {
+					break
+				}
+			}
+			r.Count("error_points", errPoints)
 			r.Count("crash_points", points)
 			if completed {
 				r.Count("sweeps_completed", 1)
